@@ -366,3 +366,60 @@ func checkMacroBudget(c *Ctx) {
 		r.Unk(rule, "counter-reset", "-", "the feed counter is never reset: anchor changed (after the first runaway macro every feed would be refused)")
 	}
 }
+
+// checkBufferReread: C06.buffer-reread. The shell's line / cursor / selection
+// are the triple GetBuffer selects (search minibuffer, completed line, input
+// line). In the functions the Readline loop calls directly, a call that may
+// enter or leave a search mode is followed, on every path to the function's
+// exit, by the re-read of the triple from GetBuffer.
+func checkBufferReread(c *Ctx) {
+	p, r := c.P, c.R
+	const rule = "C06.buffer-reread"
+	r.Rule(rule, "K1", "Shell.Line() / Cursor() / Selection() return the triple that completion.Engine.GetBuffer selected (search minibuffer, completed line or input line): in the functions the Readline loop calls directly (run, handleUndefined), every call that may enter or leave a search mode (reach IsearchStart / IsearchStop / NonIsearchStart / NonIsearchStop) is followed on every path to the exit by the store of GetBuffer's result to Shell.line — otherwise the API reports an abandoned minibuffer while Readline waits", 2)
+	switchers := map[*ssa.Function]bool{}
+	var work []*ssa.Function
+	for _, n := range []string{"(*completion.Engine).IsearchStart", "(*completion.Engine).IsearchStop", "(*completion.Engine).NonIsearchStart", "(*completion.Engine).NonIsearchStop"} {
+		f := p.Func(n)
+		if f == nil {
+			r.Unk(rule, n, "-", "anchor not found")
+			return
+		}
+		switchers[f] = true
+		work = append(work, f)
+	}
+	p.closeOverCallers(switchers, work)
+	isReread := func(in ssa.Instruction) bool {
+		st, ok := isFieldStore(in, "readline.Shell", "line")
+		if !ok {
+			return false
+		}
+		ex, ok := st.Val.(*ssa.Extract)
+		if !ok {
+			return false
+		}
+		cl, ok := ex.Tuple.(*ssa.Call)
+		return ok && calleeName(cl) == "(*completion.Engine).GetBuffer"
+	}
+	for _, fn := range []string{"(*readline.Shell).run", "(*readline.Shell).handleUndefined"} {
+		f := p.Func(fn)
+		if f == nil {
+			r.Unk(rule, fn, "-", "anchor not found")
+			continue
+		}
+		r.Fn(fn)
+		k := 0
+		eachInstr(f, func(in ssa.Instruction) {
+			call, ok := in.(ssa.CallInstruction)
+			if !ok || !p.callMayReach(call, switchers) {
+				return
+			}
+			key := fmt.Sprintf("%s:call#%d", fn, callOrdinal(f, in))
+			k++
+			w := pathAvoiding(f, in, func(x ssa.Instruction) bool { _, isRet := x.(*ssa.Return); return isRet }, isReread)
+			r.Check(w == nil, rule, key, p.IPos(in), "followed by the GetBuffer re-read on every path to the exit", "this call may enter or leave a search mode and a path reaches the exit without re-reading line/cursor/selection from GetBuffer: Line() and Cursor() report the abandoned buffer while Readline waits")
+		})
+		if k == 0 {
+			r.Unk(rule, fn+":no-switching-call", p.Pos(f.Pos()), "no call of this function can reach a search-mode switch: anchor changed")
+		}
+	}
+}
